@@ -267,23 +267,29 @@ func (matrix *DenseReal32Matrix) T() Matrix {
   return matrix.MagicT()
 }
 func (matrix *DenseReal32Matrix) Tip() {
-  mn := len(matrix.values)
-  visited := make([]bool, mn)
-  k := 0
-  for cycle := 1; cycle < mn; cycle++ {
-    if visited[cycle] {
-      continue
-    }
-    k = cycle
-    for {
-      if k != mn-1 {
-        k = matrix.rows*k % (mn-1)
+  if matrix.transposed {
+    // values are stored in column-major order, which is the row-major
+    // order of the transposed matrix
+    matrix.transposed = false
+  } else {
+    mn := len(matrix.values)
+    visited := make([]bool, mn)
+    k := 0
+    for cycle := 1; cycle < mn; cycle++ {
+      if visited[cycle] {
+        continue
       }
-      visited[k] = true
-      // swap
-      matrix.values[k], matrix.values[cycle] = matrix.values[cycle], matrix.values[k]
-      if k == cycle {
-        break
+      k = cycle
+      for {
+        if k != mn-1 {
+          k = matrix.rows*k % (mn-1)
+        }
+        visited[k] = true
+        // swap
+        matrix.values[k], matrix.values[cycle] = matrix.values[cycle], matrix.values[k]
+        if k == cycle {
+          break
+        }
       }
     }
   }
